@@ -198,7 +198,7 @@ class Machine:
                 if arg.startswith("+"):
                     if len(ops) != 1:
                         raise Fail("vec_op", "push needs exactly one value")
-                    v = ops.pop()
+                    v = self.deref(ops.pop())          # an element is a value, not a view (fix in vec_op "+")
                     c = self.find_name_in_function(arg[1:])
                     if c is None or not isinstance(c.v, ListRef):
                         raise Fail("vec_op", "vector not found for pushing")
